@@ -34,7 +34,7 @@ def run(tier, seed, verdict):
     quick = tier == "quick"
     res = mt_check.MtResult()
     # (b) model-based operation sequences on any_object / any_unique / any_ref
-    iters = 2500 if quick else 120000
+    iters = 2500 if quick else 25000
     n = 4 if quick else 12
     mt_check.run_mt("C18", "erase", "asan20d",
                     [["seed=%d" % (seed * 10 + i), "iters=%d" % iters] for i in range(n)], verdict, res, timeout=1800)
@@ -42,7 +42,7 @@ def run(tier, seed, verdict):
     mt_check.run_mt("C18", "sched", "asan20d", [["seed=%d" % seed, "mode=anysched", "iters=%d" % (6 if quick else 200),
                                                 "per=150", "threads=4"]], verdict, res, accept=("C18", "C06", "C01"))
     # (a) any_sender_of inserted in generated sender expressions, checked against the same reference model
-    npg, per, depth, leaves, budget = (18, 3, 3, 5, 120) if quick else (120, 4, 4, 6, 500)
+    npg, per, depth, leaves, budget = (18, 3, 3, 5, 120) if quick else (60, 4, 4, 6, 400)
     ops = {"any_sender", "then", "let_value", "let_done", "let_error", "finally", "via", "on", "sequence", "when_all",
            "stop_when", "unstoppable", "with_query", "lvw_stop_source", "materialize_c", "dao_c"}
     progs = _force_any_sender(gen_expr.generate(seed + 1000, npg, depth, leaves, ops), seed)
@@ -51,7 +51,7 @@ def run(tier, seed, verdict):
     r1.build()
     r1.execute({"C18": verdict}, None)
     # type_erased_stream inserted in generated pipelines
-    sp = _force_type_erase(gen_stream.generate(seed + 2000, 9 if quick else 60, 2 if quick else 3))
+    sp = _force_type_erase(gen_stream.generate(seed + 2000, 9 if quick else 40, 2 if quick else 3))
     alias2 = dict(alias)
     alias2["C13"] = "C18"
     r2 = expr_check.ExprRun(seed, len(sp), 3, 3, 5, "asan20d", budget, name="erase-stream", programs=sp,
